@@ -11,13 +11,13 @@ CHECKS = {
     "C10": dict(
         engine="tlc", level="model_checking",
         technique="TLA+ spec LRUConc.tla model-checked with the lock table measured on the real code via the verif hook; recorded concurrent histories of the real cache checked for linearizability by TLC (Trace_LRUConc.tla, silent linearization steps); race detector as run-time monitor",
-        text="(1) The lock mode each LRU method holds at its access point is measured through the hook and LRUConc.tla is model-checked with that table (no two conflicting accesses overlap, lock sanity, termination, all LRU invariants in every interleaving of 3 processes x 1 call and 2 processes x 2 calls); a predicted race is reported only after it is reproduced by a targeted run under the race detector. (2) 1 600 (quick) / 16 000 (thorough) concurrent histories of 2-4 goroutines are recorded from the real cache and TLC searches a linearization against the sequential LRU spec for each; long 16-goroutine runs are ordered by under-lock stamps and validated step by step incl. the quiescent state. (3) All runs execute under the Go race detector; panics, deadlock timeouts and capacity/sentinel violations are violations.",
+        text="(1) The lock mode each LRU method holds at its access point and the nested acquisitions (a locked method calling a locked method) are measured through the hook, and LRUConc.tla - which models Go's writer-preferring RWMutex - is model-checked with those tables (no two conflicting accesses overlap, lock sanity, no deadlock, termination, all LRU invariants in every interleaving of 3 processes x 1 call and 2 processes x 2 calls); a predicted race or deadlock is reported only after it is reproduced by a targeted run under the race detector (deadlock: watchdog plus a goroutine parked in the cache mutex). (2) 1 600 (quick) / 16 000 (thorough) concurrent histories of 2-4 goroutines are recorded from the real cache and TLC searches a linearization against the sequential LRU spec for each; long 16-goroutine runs are ordered by under-lock stamps and validated step by step incl. the quiescent state. (3) All runs execute under the Go race detector; panics, deadlock timeouts and capacity/sentinel violations are violations.",
         note="Data-race freedom of memory accesses is monitored by the Go race detector, not by TLC; the TLA+ tools decide the lock protocol (on the measured table) and linearizability of observed histories. Schedules are those the Go scheduler produced in this run.",
     ),
     "C09": dict(
         engine="tlc", level="model_checking",
         technique="TLA+ spec LRU.tla model-checked by TLC; every transition of the model graph replayed into the real cache; recorded traces of the real cache validated against Trace_LRU.tla",
-        text="TLC proves the LRU contract (bounded, no duplicates, LRU eviction, callback exactly once, Load returns last stored value, Len never the sentinel) on the complete state graph for 3 keys x 2 values x capacities 0..3; each of the 11 872 transitions is executed on the real cache (result, callbacks, Dump order, Len compared), and every operation sequence up to length 3 (quick) / 4-5 (thorough) plus long random sequences crossing the index-rebuild threshold are recorded from the real cache and accepted or rejected by TLC against the trace spec.",
+        text="TLC proves the LRU contract (bounded, no duplicates, LRU eviction, callback exactly once, Load returns last stored value, Len never the sentinel) on the complete state graph for 3 keys x 2 values x capacities 0..3; each of the 11 872 transitions is executed on the real cache (result, callbacks, Dump order, Len compared), and every operation sequence up to length 3 (quick) / 4-5 (thorough) plus long random sequences crossing the index-rebuild threshold are recorded from the real cache and accepted or rejected by TLC against the trace spec. Apalache additionally shows the invariants inductive for 4 keys x 2 values x cap 0..4 (any history length).",
         note="Trusted: TLC, the Dump() projection (values encode their key), the Go harness. Capacities/keys beyond the bounds are sampled by the random recordings only.",
     ),
 }
